@@ -254,6 +254,23 @@ def inj_self_ref(files, cfg, level):
     lvl(cfg, level)["structname"] = "X{{.StructName}}"
 
 
+def inj_self_ref_alternating(files, cfg, level):
+    # a cycle that does not grow: the value renders to its own reference and back (period 2, constant size); under the noop formatter nothing else can reject it
+    lvl(cfg, level)["structname"] = '{{"{{.StructName}}"}}'
+    lvl(cfg, level)["formatter"] = "noop"
+
+
+def inj_self_ref_squaring(files, cfg, level):
+    # two self-references inside a literal: still a cycle; a substitution into the already substituted text would square the size in every round
+    lvl(cfg, level)["structname"] = '{{"{{.StructName}}{{.StructName}}"}}'
+
+
+def inj_template_conn_refused(files, cfg, level):
+    # an http template whose connection cannot be established (nothing listens on port 1): a transport error, not an HTTP status
+    lvl(cfg, level)["template"] = "http://127.0.0.1:1/t.templ"
+    lvl(cfg, level)["require-template-schema-exists"] = False
+
+
 def inj_self_ref_file(files, cfg, level):
     lvl(cfg, level)["structname"] = "Y{{.StructName}}"
     lvl(cfg, level)["filename"] = "{{.StructName}}.go"
@@ -342,6 +359,9 @@ INVALID = {
     "schema-required-key-empty-template-data": (["root", "pkg", "iface"], inj_required_key_empty_data),
     "cyclic-templated-value": (ALL_LEVELS, inj_self_ref),
     "cyclic-templated-value-via-filename": (ALL_LEVELS, inj_self_ref_file),
+    "cyclic-templated-value-alternating-noop-formatter": (["root", "iface"], inj_self_ref_alternating),
+    "cyclic-templated-value-two-references-in-literal": (["root", "cfg"], inj_self_ref_squaring),
+    "http-template-connection-refused": (["root", "iface"], inj_template_conn_refused),
     "cyclic-templated-value-noop-formatter": (ALL_LEVELS, inj_self_ref_noop),
     "cyclic-templated-value-two-keys-noop-formatter": (["root", "iface"], inj_self_ref_pkgname_noop),
     "templated-value-syntax-error": (ALL_LEVELS, inj_tmpl_syntax),
@@ -360,7 +380,7 @@ INVALID = {
     "wrong-value-type": (["root", "pkg", "iface"], inj_wrong_type),
     "packages-wrong-type": (["root"], inj_wrong_type_packages),
 }
-NOPAIR = {"boilerplate-file-unreadable", "cyclic-templated-value-noop-formatter", "cyclic-templated-value-two-keys-noop-formatter",
+NOPAIR = {"cyclic-templated-value-alternating-noop-formatter", "boilerplate-file-unreadable", "cyclic-templated-value-noop-formatter", "cyclic-templated-value-two-keys-noop-formatter",
           "schema-required-key-no-template-data", "schema-required-key-empty-template-data"}
 # the include/exclude regexes only matter when the package is not `all` and has unlisted interfaces
 REGEX_CLASSES = {"invalid-include-regex", "invalid-exclude-regex"}
